@@ -316,13 +316,26 @@ func clip(s string) string {
 	return fmt.Sprintf("%q", s)
 }
 
+type slKey struct {
+	p unsafe.Pointer
+	n int
+	t reflect.Type
+}
+
 // SameSharing checks that two access paths lead to the same struct pointer in
 // dec exactly when they did in orig.  Both graphs are walked in lock-step.
-func SameSharing(orig, dec interface{}) string {
+func SameSharing(orig, dec interface{}) string { return sameSharing(orig, dec, true) }
+
+// SameSharingNoLists is SameSharing without list identity: for a decode of bytes in which a
+// shared list was written out twice (the reference encoder does that: Denote treats slices as values).
+func SameSharingNoLists(orig, dec interface{}) string { return sameSharing(orig, dec, false) }
+
+func sameSharing(orig, dec interface{}, lists bool) string {
 	ab := map[unsafe.Pointer]unsafe.Pointer{}
 	ba := map[unsafe.Pointer]unsafe.Pointer{}
 	mab := map[unsafe.Pointer]unsafe.Pointer{}
 	mba := map[unsafe.Pointer]unsafe.Pointer{}
+	sab := map[slKey]unsafe.Pointer{}
 	msg := ""
 	var walk func(a, b reflect.Value, path string) bool
 	walk = func(a, b reflect.Value, path string) bool {
@@ -372,6 +385,21 @@ func SameSharing(orig, dec interface{}) string {
 				}
 			}
 		case reflect.Slice:
+			// a list is a container with identity on the wire: the same non-empty Go slice (same
+			// array, same length, same type) reached over two paths must stay ONE list, so that a
+			// write through one path is seen through the other, as in the original
+			if lists && a.Len() > 0 && b.Len() == a.Len() {
+				k := slKey{unsafe.Pointer(a.Pointer()), a.Len(), a.Type()}
+				pb := unsafe.Pointer(b.Pointer())
+				if x, ok := sab[k]; ok {
+					if x != pb {
+						msg = path + ": paths that shared one list in the original lead to distinct lists after decode"
+						return false
+					}
+					return true
+				}
+				sab[k] = pb
+			}
 			for i := 0; i < a.Len() && i < b.Len(); i++ {
 				if !walk(a.Index(i), b.Index(i), fmt.Sprintf("%s[%d]", path, i)) {
 					return false
